@@ -20,11 +20,12 @@ pub fn def() -> CheckDef {
         runs_quick: 600_000,
         runs_thorough: 20_000_000,
         rule: "seeded apply/seek histories on the six Ctr* byte-stream aliases and ks/set_block_pos histories on CtrCore, over the harness cipher (block sizes: multiples of the counter size incl. multi-chunk nonces and 240..252-byte blocks; width per call from {1,2,3,5,8}) or AES-128/Magma/Kuznyechik; IV counter fields biased to 0, 1, 2^k-1, 2^w-1-k; start positions small, near 2^32 bytes, near 2^36, near the end of the keystream; every block crossing the cipher seam must equal layout(IV, i) and output must be input XOR E(layout). distinct = distinct (flavour, front end, block size, cipher, policy, op/form/offset-class sequence); non-trivial = >= 1 keystream byte",
-        required_probes: &["counter_field_wraps", "multi_chunk_nonce", "block_index_ge_2_32", "par_keystream_block", "seek_inside_block", "le_flavour", "ctr64le", "ctr128le", "set_block_pos"],
+        required_probes: &["counter_field_wraps", "multi_chunk_nonce", "block_index_ge_2_32", "par_keystream_block", "seek_inside_block", "le_flavour", "ctr64le", "ctr128le", "set_block_pos", "restart_from_exported_state"],
         r#gen,
         exec,
         components: "real code: ctr crate (CtrCore, six flavours) and cipher's StreamCipherCoreWrapper; stub: block cipher (SimCipher/SimCipherEnc) in most runs, AES-128/Magma/Kuznyechik in the rest; oracle: ctr_layout() in sim/src/model.rs applied to the recorded seam trace",
         assumptions: &["layout function and toy permutation are correct (self-tested)", "cipher crate wrapper trusted except for known findings", "sampling, not proof"],
+        nondet_is_violation: false,
     }
 }
 
@@ -102,7 +103,7 @@ fn r#gen(rng: &mut Rng, thorough: bool) -> Scn {
     let lim = limit_blocks(fl);
     let core = rng.chance(2, 5);
     s.set_num("front", core as u128);
-    s.set_num("ctor", rng.below(2) as u128);
+    s.set_num("ctor", rng.below(4) as u128);
     let w = s.pol[0].max_width() as u64;
     let nops = 1 + rng.usize(if thorough { 10 } else { 7 });
     for _ in 0..nops {
@@ -112,7 +113,7 @@ fn r#gen(rng: &mut Rng, thorough: bool) -> Scn {
                     let p = gen_pos(rng, lim, s.bs) / s.bs as u128;
                     s.ops.push(Op::new("setpos").p(p.min(lim - 64)));
                 }
-                2 => s.ops.push(Op::new("clone")),
+                2 => s.ops.push(Op::new(if rng.chance(1, 2) { "clone" } else { "restart" })),
                 3 => {
                     s.ops.push(Op::new("wrap"));
                     // continue with wrapper ops
@@ -127,7 +128,7 @@ fn r#gen(rng: &mut Rng, thorough: bool) -> Scn {
                     let p = gen_pos(rng, lim, s.bs).min(lim.saturating_mul(s.bs as u128).saturating_sub(64 * 300));
                     s.ops.push(Op::new("seek").p(p).ty(rng.below(2) as u8));
                 }
-                3 => s.ops.push(Op::new("clone")),
+                3 => s.ops.push(Op::new(if rng.chance(1, 2) { "clone" } else { "restart" })),
                 _ => s.ops.push(Op::new("apply").n(rng.nbytes(6 * s.bs as u64, s.bs as u64)).via(rng.below(N_APPLY_FORMS as u64) as u8)),
             }
         }
